@@ -267,7 +267,7 @@ def latmio_und_connected(R, itr, D=None, seed=None):
         number of actual rewirings carried out
     '''
     rng = get_rng(seed)
-    if not np.allclose(R, R.T):
+    if not np.allclose(R, R.T, atol=1e-8 * np.max(np.abs(R), initial=0)):
         raise BCTParamError("Input must be undirected")
 
     if number_of_components(R) > 1:
@@ -1039,7 +1039,7 @@ def null_model_und_sign(W, bin_swaps=5, wei_freq=.1, seed=None):
         (such as the Kolmogorov-Smirnov test) if desired.
     '''
     rng = get_rng(seed)
-    if not np.allclose(W, W.T):
+    if not np.allclose(W, W.T, atol=1e-8 * np.max(np.abs(W), initial=0)):
         raise BCTParamError("Input must be undirected")
     W = W.copy()
     n = len(W)
@@ -1316,7 +1316,7 @@ def randmio_und_connected(R, itr, seed=None):
     eff : int
         number of actual rewirings carried out
     '''
-    if not np.allclose(R, R.T):
+    if not np.allclose(R, R.T, atol=1e-8 * np.max(np.abs(R), initial=0)):
         raise BCTParamError("Input must be undirected")
 
     if number_of_components(R) > 1:
@@ -1504,7 +1504,7 @@ def randmio_und(R, itr, seed=None):
     eff : int
         number of actual rewirings carried out
     '''
-    if not np.allclose(R, R.T):
+    if not np.allclose(R, R.T, atol=1e-8 * np.max(np.abs(R), initial=0)):
         raise BCTParamError("Input must be undirected")
     rng = get_rng(seed)
     R = R.copy()
@@ -1727,7 +1727,7 @@ def randomizer_bin_und(R, alpha, seed=None):
     '''
     rng = get_rng(seed)
     R = binarize(R, copy=True)  # binarize
-    if not np.allclose(R, R.T):
+    if not np.allclose(R, R.T, atol=1e-8 * np.max(np.abs(R), initial=0)):
         raise BCTParamError(
             'randomizer_bin_und only takes undirected matrices')
 
